@@ -18,11 +18,11 @@ type Term = string
 
 type Sym interface{}
 
-type sv struct{ t Term }                  // scalar (SMT sort by Go type)
-type slv struct{ arr, off, ln, cp Term }  // slice header
-type stv struct{ fields []Sym }           // struct value
-type tuv struct{ e []Sym }                // tuple
-type adv struct {                         // address of a value of Go type typ
+type sv struct{ t Term }                 // scalar (SMT sort by Go type)
+type slv struct{ arr, off, ln, cp Term } // slice header
+type stv struct{ fields []Sym }          // struct value
+type tuv struct{ e []Sym }               // tuple
+type adv struct {                        // address of a value of Go type typ
 	base string
 	idx  []Term
 	typ  types.Type
@@ -35,12 +35,12 @@ func unsup(format string, a ...interface{}) { panic(unsupported{fmt.Sprintf(form
 // ---------- heap state ----------
 
 type Epoch struct {
-	allocAt Term // every reference stored in a base heap of this epoch is < allocAt
+	allocAt  Term // every reference stored in a base heap of this epoch is < allocAt
 	logHavoc bool
-	id    int
-	prev  *Epoch          // partial havoc: keys outside over come from prev
-	over  map[string]bool // nil: every key is fresh in this epoch
-	parts []epochPart     // merged epoch: ite over guards
+	id       int
+	prev     *Epoch          // partial havoc: keys outside over come from prev
+	over     map[string]bool // nil: every key is fresh in this epoch
+	parts    []epochPart     // merged epoch: ite over guards
 }
 type epochPart struct {
 	guard Term
@@ -68,23 +68,24 @@ func (s *State) clone() *State {
 }
 
 type Obligation struct {
-	Name    string
-	Kind    string
-	Fn      string
-	Tags    []string
-	Prefix  int
-	Goal    Term
-	Where   string
-	Desc    string
-	Expect  string // "unsat" normally, "notunsat" for reachability/vacuity guards
-	vc      *VC
-	Result  SolverResult
-	All     []SolverResult
-	Inputs  []inputVar
-	Cases   []Term
+	Name     string
+	Kind     string
+	Fn       string
+	Tags     []string
+	Prefix   int
+	Goal     Term
+	Where    string
+	Desc     string
+	Expect   string // "unsat" normally, "notunsat" for reachability/vacuity guards
+	vc       *VC
+	Result   SolverResult
+	All      []SolverResult
+	Inputs   []inputVar
+	Cases    []Term
 	RawQuery string
-	Model   map[string]string
-	Static  bool // decided by a scan of the SSA, not by a solver
+	Model    map[string]string
+	Static   bool  // decided by a scan of the SSA, not by a solver
+	Clause   *Expr // POST: the ensures clause (for replay)
 }
 
 type inputVar struct {
@@ -99,41 +100,49 @@ type keyInfo struct {
 }
 
 type VC struct {
-	eng      *Engine
-	fn       *ssa.Function
-	key      string
-	ct       *Contract
-	lines    []string
-	declared map[string]bool
-	keys     map[string]*keyInfo
-	obls     []*Obligation
-	occ      map[string]int
-	uniq     int
-	entry    *State
-	epochCtr int
-	strlits  map[string]Term
-	bits     map[Term]*big.Int
-	refKeys  map[string]bool
-	immKeys  map[string]bool // heap keys of `immutable` fields: a havoc keeps them on already-allocated objects
-	keyInt   map[string]types.Type
-	cutsHit  map[string]bool
-	guardDefs map[Term][]Term
-	axiomLines map[int][]string
-	freeCells map[string]adv
-	recoverNil bool
+	eng           *Engine
+	fn            *ssa.Function
+	key           string
+	ct            *Contract
+	lines         []string
+	declared      map[string]bool
+	keys          map[string]*keyInfo
+	obls          []*Obligation
+	occ           map[string]int
+	uniq          int
+	entry         *State
+	epochCtr      int
+	strlits       map[string]Term
+	bits          map[Term]*big.Int
+	refKeys       map[string]bool
+	ghosts        map[string]tv   // let@ ghost constants
+	fromBlock     *ssa.BasicBlock // from@: anchor position (nil until reached)
+	fromIdx       int
+	curB          *ssa.BasicBlock // block / instruction index of the top frame being executed
+	curI          int
+	skippedObls   int
+	curClause     *Expr    // clause being obliged (POST), for replay
+	replayIn      []string // SMT constants holding the entry values of the parameters (replayable functions only)
+	immKeys       map[string]bool // heap keys of `immutable` fields: a havoc keeps them on already-allocated objects
+	keyInt        map[string]types.Type
+	cutsHit       map[string]bool
+	guardDefs     map[Term][]Term
+	axiomLines    map[int][]string
+	freeCells     map[string]adv
+	recoverNil    bool
 	noInlineLimit int
-	axiomsDone bool
-	fpMode   bool
-	abstracted []string
-	opaqueCalls int
-	inputs   []inputVar
-	errs     []string
-	modSet   *modSet // evaluated modifies of the function being verified (nil = unchecked)
-	inlArr   map[string]bool
-	curTags  []string
-	topFrame *frame
-	topVars  map[string]tv
-	closureMap map[Term]*ssa.MakeClosure
+	axiomsDone    bool
+	fpMode        bool
+	abstracted    []string
+	opaqueCalls   int
+	inputs        []inputVar
+	errs          []string
+	modSet        *modSet // evaluated modifies of the function being verified (nil = unchecked)
+	inlArr        map[string]bool
+	curTags       []string
+	topFrame      *frame
+	topVars       map[string]tv
+	closureMap    map[Term]*ssa.MakeClosure
 }
 
 func (vc *VC) emit(s string) { vc.lines = append(vc.lines, s) }
@@ -257,6 +266,10 @@ func (vc *VC) oblige(st *State, kind, label, goal, where, desc string) {
 	if st.dead {
 		return
 	}
+	if vc.ct != nil && vc.ct.HasFrom && !vc.inVerifiedTail() {
+		vc.skippedObls++
+		return
+	}
 	if goal == "true" {
 		return
 	}
@@ -276,9 +289,20 @@ func (vc *VC) oblige(st *State, kind, label, goal, where, desc string) {
 	if st.guard != "true" {
 		g = fmt.Sprintf("(=> %s %s)", st.guard, goal)
 	}
-	o := &Obligation{Name: name, Kind: kind, Fn: vc.key, Prefix: len(vc.lines), Goal: g, Where: where, Desc: desc, Expect: "unsat", vc: vc, Tags: vc.curTags}
+	o := &Obligation{Name: name, Kind: kind, Fn: vc.key, Prefix: len(vc.lines), Goal: g, Where: where, Desc: desc, Expect: "unsat", vc: vc, Tags: vc.curTags, Clause: vc.curClause}
 	o.Cases = vc.caseSplit(st.guard, 8)
 	vc.obls = append(vc.obls, o)
+}
+
+// inVerifiedTail: with a from@ clause only instructions at or after the anchor (dominated by it) are verified.
+func (vc *VC) inVerifiedTail() bool {
+	if vc.fromBlock == nil || vc.curB == nil {
+		return false
+	}
+	if vc.curB == vc.fromBlock {
+		return vc.curI >= vc.fromIdx
+	}
+	return vc.fromBlock.Dominates(vc.curB)
 }
 
 // ---------- sorts ----------
@@ -925,6 +949,7 @@ type loopInfo struct {
 type retInfo struct {
 	st   *State
 	vals []Sym
+	b    *ssa.BasicBlock
 }
 
 type frame struct {
@@ -1464,10 +1489,47 @@ func (f *frame) run(st *State) {
 				}
 			}
 		}
+		if f.depth == 0 && !f.specMode {
+			vc.curB, vc.curI = b, -1
+		}
 		if li := f.loops[b]; li != nil {
 			f.loopHeader(li, cur)
 		}
 		f.execBlock(b, cur)
+		if li := f.loops[b]; li != nil && li.spec != nil && len(li.spec.Exits) > 0 && !f.specMode {
+			f.loopExitChecks(li, b)
+		}
+	}
+}
+
+// loopExitChecks: `loop K exit E` is an obligation on the edge that leaves the loop from its header (the loop condition
+// is false there and the invariants hold); names denote the header values.
+func (f *frame) loopExitChecks(li *loopInfo, b *ssa.BasicBlock) {
+	vc := f.vc
+	ps := f.out[b]
+	if ps == nil || ps.dead {
+		return
+	}
+	for si, succ := range b.Succs {
+		if li.body[succ] {
+			continue
+		}
+		g := f.edgeGuardFor(b, succ, 0)
+		if len(b.Succs) == 2 && b.Succs[0] == b.Succs[1] && si == 1 {
+			continue
+		}
+		st := ps.clone()
+		st.guard = g
+		for i, ex := range li.spec.Exits {
+			t, err := f.evalLoopClause(ex.E, li, st, nil)
+			if err != nil {
+				vc.errs = append(vc.errs, fmt.Sprintf("%s: %v", ex.Line, err))
+				continue
+			}
+			vc.withTags(f.clauseTags(ex), func() {
+				vc.oblige(st, "LOOP-EXIT", fmt.Sprintf("%sloop%d/%d", f.prefix, li.ordinal, i+1), t, f.where(firstPos(succ)), "loop exit "+ex.E.String())
+			})
+		}
 	}
 }
 
@@ -1804,9 +1866,12 @@ func (vc *VC) constSym(c *ssa.Const) Sym {
 
 func (f *frame) execBlock(b *ssa.BasicBlock, cur *State) {
 	vc := f.vc
-	for _, in := range b.Instrs {
+	for ii0, in := range b.Instrs {
 		if cur.dead {
 			break
+		}
+		if f.depth == 0 && !f.specMode {
+			vc.curB, vc.curI = b, ii0
 		}
 		switch x := in.(type) {
 		case *ssa.Phi, *ssa.DebugRef:
@@ -1824,7 +1889,7 @@ func (f *frame) execBlock(b *ssa.BasicBlock, cur *State) {
 			for i, r := range x.Results {
 				vals[i] = f.val(r)
 			}
-			f.rets = append(f.rets, retInfo{cur.clone(), vals})
+			f.rets = append(f.rets, retInfo{cur.clone(), vals, b})
 			cur = &State{dead: true}
 		case *ssa.Panic:
 			if !f.specMode {
@@ -1914,7 +1979,38 @@ func (f *frame) checkAsserts(b *ssa.BasicBlock, in ssa.Instruction, cur *State) 
 			continue
 		}
 		f.vc.declared[key] = true
+		if as.Kind == "from" {
+			// verification starts here: arbitrary heap, assumed condition
+			f.vc.havocKeys(cur, &writeSet{all: true})
+			cur.nonnil = map[Term]bool{}
+			sc0 := f.assertScope(b, idx, cur)
+			t, err := sc0.evalBool(as.E)
+			if err != nil {
+				f.vc.errs = append(f.vc.errs, fmt.Sprintf("%s: %v", as.Line, err))
+				continue
+			}
+			f.vc.assume(cur, t)
+			f.vc.fromBlock, f.vc.fromIdx = b, idx
+			continue
+		}
 		sc := f.assertScope(b, idx, cur)
+		if as.Kind == "let" {
+			v, err := sc.eval(as.E)
+			if err != nil {
+				f.vc.errs = append(f.vc.errs, fmt.Sprintf("%s: %v", as.Line, err))
+				continue
+			}
+			if x, ok := v.sym.(sv); ok {
+				if srt := f.vc.eng.sortOf(v.typ); srt != "" {
+					v.sym = sv{f.vc.define("ghost_"+as.Name, srt, x.t)}
+				}
+			}
+			if f.vc.ghosts == nil {
+				f.vc.ghosts = map[string]tv{}
+			}
+			f.vc.ghosts[as.Name] = v
+			continue
+		}
 		t, err := sc.evalBool(as.E)
 		if err != nil {
 			f.vc.errs = append(f.vc.errs, fmt.Sprintf("%s: %v", as.Line, err))
